@@ -9,8 +9,9 @@ from harness import common, tlc
 
 
 def registry():
-    from harness.props import reqwait, errorclass, session
+    from harness.props import reqwait, errorclass, session, dispatch
     return {
+        "C08": dispatch.check_c08,
         "C19": session.check_c19,
         "C07": errorclass.check_c07,
         "C01": reqwait.check_c01,
